@@ -176,6 +176,22 @@ class Refs(object):
             out[key] = enc(r)
         return out
 
+    def label(self, cidx, got, call):
+        """Diagnostic only (never decides a verdict): repeat the failing call on a fresh graph
+        recorded with the *client's* recording configuration.  If that reproduces the wrong
+        outcome the cause is what was captured while recording, otherwise the call history."""
+        cfg = self.run['clients'][cidx]
+        rec = cfg['rec']
+
+        def thunk():
+            cg = self.record(cfg['program'], [make_value(self.al, rec['kind'], v) for v in rec['vals']])
+            return call(cg)
+        try:
+            again = self.outcome(thunk)
+        except BaseException:
+            return 'unknown'
+        return 'recording state' if same_outcome(again, got) else 'call history'
+
     # ---- per-event judgement -----------------------------------------------
     def judge(self):
         run = self.run
@@ -307,7 +323,17 @@ class Refs(object):
                 cg.pushforward(xs)
                 return enc([f.x for f in cg.dependentFunctionList])
             want = self.outcome(pristine, es)
-            self.verdict('C06', 'O6.fwd', ev, same_outcome(got, want), got=brief(got), want=brief(want))
+            ok = same_outcome(got, want)
+            lab = None
+            if not ok:
+                def call(cg):
+                    xs = [dec(a, self.al) for a in args]
+                    if step['api'] == 'function':
+                        return enc(cg.function(xs))
+                    cg.pushforward(xs)
+                    return enc([f.x for f in cg.dependentFunctionList])
+                lab = self.label(ev['c'], got, call)
+            self.verdict('C06', 'O6.fwd', ev, ok, got=brief(got), want=brief(want), label=lab)
 
     def judge_rev(self, ev, step, prog, fargs):
         if 'C06' not in self.props:
@@ -320,7 +346,15 @@ class Refs(object):
             cg.pullback([dec(a, self.al) for a in ev['args']])
             return enc([f.xbar for f in cg.independentFunctionList])
         want = self.outcome(pristine)
-        self.verdict('C06', 'O6.rev', ev, same_outcome(got, want), got=brief(got), want=brief(want))
+        ok = same_outcome(got, want)
+        lab = None
+        if not ok:
+            def call(cg):
+                cg.pushforward([dec(a, self.al) for a in fargs])
+                cg.pullback([dec(a, self.al) for a in ev['args']])
+                return enc([f.xbar for f in cg.independentFunctionList])
+            lab = self.label(ev['c'], got, call)
+        self.verdict('C06', 'O6.rev', ev, ok, got=brief(got), want=brief(want), label=lab)
 
     def judge_drv(self, ev, step, prog):
         got = ev['out']
@@ -333,10 +367,15 @@ class Refs(object):
                 cg = self.record(prog, [x0])
                 return driver_thunk(al, cg, step)()
             want = self.outcome(pristine)
+        lab = None
+        if want is not None and not same_outcome(got, want):
+            lab = self.label(ev['c'], got, lambda cg: driver_thunk(al, cg, step)())
         if 'C06' in self.props:
-            self.verdict('C06', 'O6.drv', ev, same_outcome(got, want), got=brief(got), want=brief(want), driver=step['name'])
+            self.verdict('C06', 'O6.drv', ev, same_outcome(got, want), got=brief(got), want=brief(want),
+                         driver=step['name'], label=lab)
         if 'C04' in self.props:
-            self.verdict('C04', 'O4a', ev, same_outcome(got, want), got=brief(got), want=brief(want), driver=step['name'])
+            self.verdict('C04', 'O4a', ev, same_outcome(got, want), got=brief(got), want=brief(want),
+                         driver=step['name'], label=lab)
             if prog['truth'] or prog['family'] in programs.PROBES:
                 self.judge_truth(ev, step, prog, got)
 
